@@ -12,7 +12,7 @@ import est_common as ec
 
 PROP_FILE = 'theories/Properties/C06.v'
 MODEL_FILES = ['theories/Base/Rows.v', 'theories/Model/Estimators.v', 'theories/Model/Variance.v', 'theories/Spec/Measures.v']
-GEN_GROUPS = ['calc', 'ic', 'aipw', 'pool', 'wprod', 'xfvar']
+GEN_GROUPS = ['calc', 'ic', 'aipw', 'pool', 'wprod', 'xfvar', 'drci']
 RULE = ('alpha grid {0.05, 0.049999, 0.5, 1e-6, 0.999, 0.01, 0.2} x: count calculators on random tables; AIPTW / TMLE / '
         'StochasticTMLE / IPTW on random mixed frames; calculate_joint_estimate on random vectors and the four cross-fit '
         'classes with sklearn learners; per fit: limits = est -/+ norm.ppf(1-alpha/2)*SE on the documented scale, nestedness '
